@@ -57,10 +57,27 @@ def case(draw):
     desc["waters"] = [dict(draw(strat.water()), chain=draw(st.sampled_from(["W", ids[0], " "])), seq=700 + k,
                            resn=draw(st.sampled_from(["HOH", "HOH", "WAT"])), rec=draw(st.sampled_from(["HETATM", "HETATM", "ATOM"])))
                       for k in range(draw(st.integers(0, 2)))]  # fmt: skip
+    if draw(st.integers(0, 3)) == 0:
+        # a nucleic-acid strand, half of them with pre-remediation atom names (O5* ..., C5M)
+        dna = draw(st.booleans())
+        n = draw(st.integers(1, 3))
+        desc["na"] = [dict(id=draw(st.sampled_from(["N", ids[0]])), dna=dna, p5=draw(st.booleans()), newnames=draw(st.booleans()),
+                           seq="".join(draw(st.lists(st.sampled_from("ACGT" if dna else "ACGU"), min_size=n, max_size=n))),
+                           style=draw(st.sampled_from(["bare", "R"])), start=draw(st.sampled_from([5001, 5501])),
+                           stars=draw(st.sampled_from([0, 1, 1, 2])), shuffle=draw(st.sampled_from([0, 0, 7, 19])),
+                           jitter=draw(st.sampled_from([0.0, 0.03])))]  # fmt: skip
+    het = None
+    if draw(st.integers(0, 2)) == 0:
+        # a hetero group pdb2pqr has no definition for (ion, cofactor, modified residue)
+        het = dict(resn=draw(st.sampled_from(["SO4", "MSE", "NAG", "ZN", "XYZ"])), n=draw(st.integers(1, 5)),
+                   chain=draw(st.sampled_from(["H", ids[0], " "])), seq=draw(st.sampled_from([401, 950, -7])),
+                   rec=draw(st.sampled_from(["HETATM", "HETATM", "ATOM"])),
+                   alt=draw(st.sampled_from(["none", "adjacent", "grouped", "grouped"])),
+                   at=draw(st.sampled_from(["end", "end", "start"])))  # fmt: skip
     edits = [[draw(st.integers(0, 400)), draw(st.sampled_from(EDITS))] for _ in range(draw(st.integers(0, 6)))]
     alts = [[draw(st.integers(0, 400)), draw(st.sampled_from(["adjacent", "grouped"]))] for _ in range(draw(st.integers(0, 2)))]
     return dict(
-        part="layout", desc=desc, edits=edits, alts=alts,
+        part="layout", desc=desc, edits=edits, alts=alts, het=het,
         crlf=draw(st.sampled_from([False, False, True])),
         truncate=draw(st.sampled_from([None, None, 54, 60, 66, 78])),
         trailing=draw(st.sampled_from([0, 0, 3])),
@@ -79,13 +96,31 @@ def render(case):
     desc = case["desc"]
     e2e.normalise(desc, [])
     s = build.materialise(desc)
-    recs = s.records
+    recs = list(s.records)
     # atom lines with optional alt-loc copies
     lines = []  # (kind, text, record index)
     alt_at = {}
     for pos, style in case["alts"]:
         if recs:
             alt_at[pos % len(recs)] = style
+    het = case.get("het")
+    if het:
+        names = {"SO4": ["S", "O1", "O2", "O3", "O4"], "ZN": ["ZN"], "MSE": ["N", "CA", "C", "O", "SE"],
+                 "NAG": ["C1", "C2", "O5", "N2", "O7"], "XYZ": ["X1", "X2", "X3", "X4", "X5"]}[het["resn"]][: het["n"]]
+        hrecs = [dict(name=nm, resn=het["resn"], chain=het["chain"], seq=het["seq"], icode=" ", rec=het["rec"],
+                      xyz=np.array([90.0 + 1.5 * k, 80.0 - 1.1 * k, 70.0 + 0.7 * (k % 2)]), group=("het", 0))
+                 for k, nm in enumerate(names)]  # fmt: skip
+        if het["at"] == "start":
+            alt_at = {k + len(hrecs): v for k, v in alt_at.items()}
+            recs = hrecs + recs
+            base = 0
+        else:
+            base = len(recs)
+            recs = recs + hrecs
+        if het["alt"] != "none":
+            for k in range(len(hrecs)):
+                alt_at[base + k] = het["alt"]
+    ters = set(s.ters) if not (het and het["at"] == "start") else {t + len(hrecs) for t in s.ters}
     grouped_pending = []
     serial = case.get("serial0", 1)
     for i, r in enumerate(recs):
@@ -110,7 +145,7 @@ def render(case):
                 lines.append(("atom", text, j))
             grouped_pending = []
             lines.append(("boundary", None, i))
-        if i in s.ters:
+        if i in ters:
             lines.append(("ter", "TER", i))
     # layout edits at drawn line positions
     n_before = 0
@@ -183,8 +218,22 @@ def render(case):
     return eol.join(final) + eol, n_before, s
 
 
+NT = {"A": "RA", "C": "RC", "G": "RG", "U": "RU", "RA": "RA", "RC": "RC", "RG": "RG", "RU": "RU",
+      "DA": "RA", "DC": "RC", "DG": "RG", "DT": "DT"}  # fmt: skip
+
+
+def _canon(resn, name):
+    """Pre-remediation nucleotide atom names (O5*, C5M ...) are the same atoms as the current names
+    (pinned altname table of the nucleotide templates)."""
+    if resn in NT:
+        return topo.RES[NT[resn]]["alts"].get(name, name)
+    return name
+
+
 def _key(resn, seq, icode, name, x, y, z):
     resn = "WAT" if resn in ("HOH", "WAT") else resn
+    if resn in ("A", "C", "G", "U"):
+        resn = "R" + resn  # pdb2pqr's residue name of a ribonucleotide
     return (resn, seq, (icode or "").strip(), name, round(x, 3), round(y, 3), round(z, 3))
 
 
@@ -202,12 +251,15 @@ def check(case):
         opts.append("--drop-water")
     opts.append("--keep-chain")
     r = pipeline.run(text.encode(), opts)
-    has_alt = bool(case["alts"])
+    het = case.get("het")
+    has_alt = bool(case["alts"]) or bool(het and het["alt"] != "none")
     has_icode = any("icodes" in ch for ch in case["desc"]["chains"])
     res.nontrivial = n_before > 0 or case["models"] > 1 or has_alt or has_icode
     res.label(f"mode={mode}", f"models={case['models']}", "crlf" if case["crlf"] else "lf",
               "alt" if has_alt else "no-alt", "icode" if has_icode else "no-icode",
-              f"edits-before={min(n_before, 3)}", *sorted({k for _p, k in case["edits"]}))  # fmt: skip
+              f"edits-before={min(n_before, 3)}", *sorted({k for _p, k in case["edits"]}),
+              *([f"het-alt={het['alt']}"] if het else []),
+              *("na-old-names" if x.get("stars") else "na" for x in case["desc"].get("na", [])))  # fmt: skip
     if not r.ok:
         if mode.startswith("clean"):
             res.bad(f"C07:clean-run-fails:{type(r.exc).__name__}", f"ingestion fails: {r.exc_text[:120]}")
@@ -215,13 +267,20 @@ def check(case):
             res.label("full-run-failed")
         return res
     want = Counter()
+    # the 5'-terminal phosphate of a strand is removed by design (the termini do not model it)
+    five = {(m["id"], m["start"]) for m in s.strands}
+    phosphate = ("P", "OP1", "OP2", "O1P", "O2P")
     for a in oracle:
         if "dropwater" in mode and a["resn"] in ("HOH", "WAT"):
             continue
-        want[_key(a["resn"], a["seq"], a["icode"], a["name"], a["x"], a["y"], a["z"])] += 1
+        if a["name"] in phosphate and (a["chain"], a["seq"]) in five and a["resn"] in NT:
+            continue
+        want[_key(a["resn"], a["seq"], a["icode"], _canon(a["resn"], a["name"]), a["x"], a["y"], a["z"])] += 1
     got = Counter()
     for residue in r.bio.residues:
         for a in residue.atoms:
+            if a.name in phosphate and (a.chain_id, a.res_seq) in five and a.res_name in NT:
+                continue
             got[_key(residue.name if residue.name in ("WAT", "HOH") else a.res_name, a.res_seq, a.ins_code, a.name, a.x, a.y, a.z)] += 1
     if mode.startswith("clean"):
         if got != want:
